@@ -23,7 +23,7 @@ RULE = ('one selected strategy per run x all 28 registered strategies x paired/s
 ASSUMPTIONS = ['input FASTQ is well formed (4 lines per record, equal seq/qual length, same number of records in both mate files)',
                'library names are short and header-safe (a header over 255 characters is C04\'s loud refusal)',
                'per-cell output is only combined with barcode strategies (the bulk strategy writes plain strings without a cell)']
-MIN_NONTRIVIAL = {'quick': 100, 'thorough': 500}
+MIN_NONTRIVIAL = {'quick': 100, 'thorough': 2000}
 REQUIRED_MONITORS = ['hook:FastqIterator.__next__', 'hook:target.write', 'hook:reject.write', 'files:strict_parsed',
                      'oracle:accepted_ids', 'oracle:rejected_ids', 'config:per_cell', 'config:no_reject_handle', 'config:max_read_pairs', 'config:cli']
 SHARD_TIMEOUT = {'quick': 900, 'thorough': 5400}
@@ -33,12 +33,12 @@ HDR_KINDS = ['illumina'] * 8 + ['illumina_unknown_index', 'illumina_numeric_inde
 
 def gen_cases(tier, seed):
     cases = []
-    reps = 8 if tier == 'quick' else 40
+    reps = 8 if tier == 'quick' else 160
     for name in LY.ALL_NAMES:
         for rep in range(reps):
             cases.append({'strategy': name, 'rep': rep, 'seed': seed, 'n': None})
     # the real command line (demux.py run as __main__ in a subprocess) on a generated directory with several lanes
-    for j in range(12 if tier == 'quick' else 150):
+    for j in range(12 if tier == 'quick' else 400):
         cases.append({'kind': 'cli', 'j': j, 'seed': seed})
     return cases
 
